@@ -56,6 +56,13 @@ def run(chk, facts, tier):
             g = any(op == '!=' and cval(r) == 0 and not isinstance(l, int) and strip_casts(l).k in REF_KINDS and strip_casts(l).n in good_flags for l, op, r in ats)
             rsp = any(op == '==' and is_name(l, 'opcode') and not isinstance(r, int) and strip_casts(r).n == 'LL_START_ENC_RSP' for l, op, r in ats)
             ok = g and rsp
+            # one LL_START_ENC_REQ allows one LL_START_ENC_RSP: the flag is consumed on the very path that marks the link encrypted
+            clr = [st for tgt, op, val, st in stores(fn.body) if target_name(tgt) in good_flags and op == '=' and cval(val) == 0]
+            gs = lambda n: sorted((cnd.i, str(o)) for cnd, o in fn.guards(n))
+            consumed = any(gs(st) == gs(c) for st in clr)
+            chk.instance('encrypted-needs-start-enc-req', fn, '%s(%s): request flag cleared on the same path' % (c.cn, 'true' if c.args() else ''), consumed,
+                         '' if consumed else 'the "LL_START_ENC_REQ was sent" flag is not cleared on every path that accepts the LL_START_ENC_RSP: a later, unsolicited LL_START_ENC_RSP (after a pause) switches encryption on again although no key was requested',
+                         node=c, key=str(c.cn) + ' consumes')
             chk.instance('encrypted-needs-start-enc-req', fn, '%s(%s)' % (c.cn, 'true' if c.args() else ''), ok,
                          '' if ok else 'LL_START_ENC_RSP is accepted although the peripheral never sent LL_START_ENC_REQ with a key (flags set with the key: %s): an unsolicited LL_START_ENC_RSP makes the link count as encrypted' % sorted(good_flags),
                          node=c, key=c.cn)
